@@ -22,6 +22,7 @@ def jobs(tier, seed):
         for n in range(0, 6 if tier == 'quick' else 9):
             js.append(dict(name='three_opt_ranges len=%d checks=%s' % (n, mode), func='job_ranges', kwargs=dict(n=n, mode=mode)))
     js.append(dict(name='circulation_feasible', func='job_network_new', kwargs=dict(tier=tier, trips=2, maint=1)))
+    js.append(dict(name='circulation_feasible seats<capacity', func='job_network_new', kwargs=dict(tier=tier, trips=2, maint=0, caps=(7, 3))))
     if tier == 'thorough': js.append(dict(name='circulation_feasible_2types', func='job_network_new', kwargs=dict(tier=tier, trips=3, maint=1, two_types=True)))
     return js
 
@@ -76,7 +77,7 @@ TINY = {"vehicleTypes": [{"id": "vt0", "capacity": 5, "seats": 7}], "locations":
 
 def confirm(c):
     from . import C17
-    if c.get('expect', {}).get('kind') != 'tsp': return C17.confirm(c)
+    if not isinstance(c.get('expect'), dict) or c['expect'].get('kind') != 'tsp': return C17.confirm(c)
     sc = c.get('scenario')
     if not sc: return False, 'no native scenario for this cycle length'
     out = []; exp = c['expect']
